@@ -147,8 +147,136 @@ Proof.
     + destruct outs as [|o [|o2 rest]]; try discriminate. intros H. injection H as <-. reflexivity.
     + intros H. injection H as <-. rewrite map_map. cbn [fst]. rewrite map_id. reflexivity.
     + discriminate.
+    + discriminate.
   - discriminate.
   - destruct outs as [|o [|o2 rest]]; try discriminate. intros H. injection H as <-. reflexivity.
+Qed.
+
+(* ------------------------------------------------------------------------------------------ *)
+(* AddOutput, the names found in an output directory, moveOutputs *)
+
+Lemma add_out_In x l y : In y (add_out x l) <-> y = x \/ In y l.
+Proof.
+  induction l as [|z l IH]; cbn [add_out In]; [intuition congruence|].
+  destruct (str_cmp x z) eqn:E.
+  - apply str_cmp_eq in E. subst z. cbn [In]. intuition congruence.
+  - cbn [In]. intuition congruence.
+  - cbn [In]. rewrite IH. intuition congruence.
+Qed.
+
+Lemma add_outs_In xs : forall l y, In y (add_outs xs l) <-> In y xs \/ In y l.
+Proof.
+  unfold add_outs. induction xs as [|x xs IH]; intros l y; cbn [fold_left In]; [tauto|].
+  rewrite IH, add_out_In. intuition congruence.
+Qed.
+
+Lemma ins_entry_names k v l : map fst (ins_entry k v l) = add_out k (map fst l).
+Proof.
+  induction l as [|[k' v'] l IH]; cbn [ins_entry map fst add_out]; [reflexivity|].
+  destruct (str_cmp k k') eqn:E; cbn [map fst]; [apply str_cmp_eq in E; subst; reflexivity|reflexivity|]. rewrite IH. reflexivity.
+Qed.
+
+Lemma copy_fold_names ins : forall acc,
+  map fst (fold_left (fun es pn => ins_entry (basename (fst pn)) (snd pn) es) ins acc)
+  = fold_left (fun a p => add_out (basename p) a) (map fst ins) (map fst acc).
+Proof.
+  induction ins as [|pn ins IH]; intros acc; cbn [fold_left map]; [reflexivity|].
+  rewrite IH, ins_entry_names. reflexivity.
+Qed.
+
+Lemma gather_paths rd l ins : gather rd l = Some ins -> map fst ins = l.
+Proof.
+  revert ins. induction l as [|p l IH]; intros ins; cbn [gather].
+  - intros H. injection H as <-. reflexivity.
+  - destruct (rd p); [|discriminate]. destruct (gather rd l) as [ns|]; [|discriminate].
+    intros H. injection H as <-. cbn [map fst]. rewrite (IH ns eq_refl). reflexivity.
+Qed.
+
+(* what the output_dirs command finds is named by the paths alone *)
+Lemma found_names_spec r st t ins : gather (read r st) (all_paths r t) = Some ins ->
+  map fst (copy_entries (tmp_ins ins)) = found_names r t.
+Proof.
+  intros Hg. unfold copy_entries, found_names. rewrite copy_fold_names. cbn [map].
+  apply gather_paths in Hg. rewrite <- Hg. unfold tmp_ins. rewrite !map_map. cbn [fst snd]. clear Hg.
+  generalize (@nil str). induction ins as [|pn ins IH]; intros acc; cbn [fold_left map]; [reflexivity|].
+  apply IH.
+Qed.
+
+Lemma collect_names tmp outs moved : collect tmp outs = Some moved -> map fst moved = outs.
+Proof.
+  revert moved. induction outs as [|o outs IH]; intros moved; cbn [collect].
+  - intros H. injection H as <-. reflexivity.
+  - destruct (alookup o tmp); [|discriminate]. destruct (collect tmp outs) as [l|]; [|discriminate].
+    intros H. injection H as <-. cbn [map fst]. rewrite (IH l eq_refl). reflexivity.
+Qed.
+
+Lemma od_cmd_found outs ins found news : od_cmd outs ins = Some (found, news) -> found = copy_entries ins.
+Proof.
+  unfold od_cmd. destruct outs as [|o rest]; [discriminate|]. destruct (all_files ins); [|discriminate].
+  intros H. injection H as <- _. reflexivity.
+Qed.
+
+Lemma out_rels_claimed r t rel : In rel (out_rels t) -> In rel (claimed r t).
+Proof. intros H. unfold claimed. apply in_or_app. left. exact H. Qed.
+
+Lemma remove_outs_outs t outs st rel : ~ In rel (map (out_rel t) outs) -> s_outs (remove_outs t outs st) rel = s_outs st rel.
+Proof. apply remove_fold_outs. Qed.
+Lemma remove_outs_meta t outs st : s_meta (remove_outs t outs st) = s_meta st.
+Proof. apply remove_fold_meta. Qed.
+Lemma remove_fold_dyn rels : forall st, s_dyn (fold_left (fun s x => set_out s x None) rels st) = s_dyn st.
+Proof. induction rels as [|x rels IH]; intros st; cbn [fold_left]; [reflexivity|]. rewrite IH. reflexivity. Qed.
+Lemma remove_outs_dyn t outs st : s_dyn (remove_outs t outs st) = s_dyn st.
+Proof. apply remove_fold_dyn. Qed.
+Lemma move_fold_dyn rk t news : forall st, s_dyn (fold_left (move_output rk t) news st) = s_dyn st.
+Proof. induction news as [|on news IH]; intros st; cbn [fold_left]; [reflexivity|]. rewrite IH. reflexivity. Qed.
+
+(* the paths a build of an output_dirs target from the outputs `outs0` may touch *)
+Lemma rebuild_od_frame r rn t outs0 :
+  let rn' := rebuild_od r rn t outs0 in
+  (forall rel, ~ In rel (map (out_rel t) outs0) -> ~ In rel (map (out_rel t) (found_names r t)) ->
+     s_outs (rn_st rn') rel = s_outs (rn_st rn) rel)
+  /\ (forall l, l <> t_label t -> s_meta (rn_st rn') l = s_meta (rn_st rn) l /\ s_dyn (rn_st rn') l = s_dyn (rn_st rn) l).
+Proof.
+  unfold rebuild_od. destruct (source_key r (rn_st rn) t) as [sk|].
+  2:{ unfold fail_run. cbn [rn_st]. split.
+      - intros rel H0 _. apply remove_outs_outs. exact H0.
+      - intros l _. rewrite remove_outs_meta, remove_outs_dyn. split; reflexivity. }
+  unfold run_od. destruct (gather (read r (rn_st rn)) (all_paths r t)) as [ins|] eqn:Eg.
+  2:{ unfold fail_run. cbn [rn_st]. split.
+      - intros rel H0 _. apply remove_outs_outs. exact H0.
+      - intros l _. rewrite remove_outs_meta, remove_outs_dyn. split; reflexivity. }
+  destruct (od_cmd outs0 (tmp_ins ins)) as [[found news]|] eqn:Ec.
+  2:{ cbn [rn_st]. split.
+      - intros rel H0 _. apply remove_outs_outs. exact H0.
+      - intros l _. rewrite remove_outs_meta, remove_outs_dyn. split; reflexivity. }
+  pose proof (od_cmd_found _ _ _ _ Ec) as Hf. subst found. rewrite (found_names_spec r (rn_st rn) t ins Eg).
+  assert (Hpaths : forall rel, ~ In rel (map (out_rel t) outs0) -> ~ In rel (map (out_rel t) (found_names r t)) ->
+            ~ In rel (map (out_rel t) (add_outs (found_names r t) outs0))).
+  { intros rel H0 H1 Hi. apply in_map_iff in Hi. destruct Hi as [o [<- Ho]]. apply add_outs_In in Ho.
+    destruct Ho as [Ho|Ho]; [apply H1|apply H0]; apply in_map; exact Ho. }
+  assert (Hmeta : forall l, l <> t_label t ->
+            s_meta (set_meta_dyn (rn_st rn) (t_label t) (found_names r t)) l = s_meta (rn_st rn) l
+            /\ s_dyn (set_meta_dyn (rn_st rn) (t_label t) (found_names r t)) l = s_dyn (rn_st rn) l).
+  { intros l Hl. cbn. unfold upd. apply str_eqb_neq in Hl. rewrite Hl. split; reflexivity. }
+  destruct (collect (copy_entries (tmp_ins ins) ++ news) (add_outs (found_names r t) outs0)) as [moved|] eqn:Eco; cbn [rn_st].
+  - apply collect_names in Eco. split.
+    + intros rel H0 H1. rewrite move_fold_outs; [reflexivity|]. rewrite Eco. apply Hpaths; assumption.
+    + intros l Hl. rewrite move_fold_meta, move_fold_dyn. apply Hmeta. exact Hl.
+  - split.
+    + intros rel H0 H1. rewrite remove_outs_outs; [reflexivity|]. apply Hpaths; assumption.
+    + intros l Hl. rewrite remove_outs_meta, remove_outs_dyn. apply Hmeta. exact Hl.
+Qed.
+
+Lemma build_rule_od_frame r rn t : stale_flow r (rn_st rn) t = false -> could_modify t = true ->
+  let rn' := build_rule_od r rn t in
+  (forall rel, ~ In rel (claimed r t) -> s_outs (rn_st rn') rel = s_outs (rn_st rn) rel)
+  /\ (forall l, l <> t_label t -> s_meta (rn_st rn') l = s_meta (rn_st rn) l /\ s_dyn (rn_st rn') l = s_dyn (rn_st rn) l).
+Proof.
+  intros Hst Hcm. unfold build_rule_od. unfold stale_flow in Hst. rewrite Hcm in Hst. cbn [andb] in Hst.
+  destruct (needs_build r (rn_st rn) t).
+  - destruct (rebuild_od_frame r rn t (outputs t)) as [Ho Hm]. split; [|exact Hm].
+    intros rel Hn. apply Ho; intros Hi; apply Hn; unfold claimed; rewrite Hcm; apply in_or_app; [left|right]; exact Hi.
+  - cbn [negb andb] in Hst. rewrite Hst. split; [reflexivity|]. intros l _. split; reflexivity.
 Qed.
 
 (* ------------------------------------------------------------------------------------------ *)
@@ -193,42 +321,64 @@ Proof.
         rewrite app_assoc, <- repeat_app. replace (S n + 1) with (S (S n)) by lia. reflexivity.
 Qed.
 
+Lemma build_filegroup_dyn r t : forall rn, s_dyn (rn_st (build_filegroup r t rn)) = s_dyn (rn_st rn).
+Proof.
+  unfold build_filegroup. generalize (outputs t) as fs.
+  induction fs as [|f fs IH]; intros rn; cbn [fold_left]; [reflexivity|].
+  rewrite IH. destruct (alookup (join (t_pkg t) f) (r_files r)) as [c|]; [|reflexivity].
+  cbn zeta. destruct (s_outs (rn_st rn) (join (t_pkg t) f)) as [e|]; [destruct (str_eqb _ c)|]; reflexivity.
+Qed.
+
+Lemma set_meta_dyn_other st l l' : l' <> l -> s_dyn (set_meta st l) l' = s_dyn st l'.
+Proof. intros H. cbn. unfold upd. apply str_eqb_neq in H. rewrite H. reflexivity. Qed.
+
 Lemma run_action_frame r rn t rk :
   let rn' := run_action false r rn t rk in
   (forall rel, ~ In rel (out_rels t) -> s_outs (rn_st rn') rel = s_outs (rn_st rn) rel)
-  /\ (forall l, l <> t_label t -> s_meta (rn_st rn') l = s_meta (rn_st rn) l).
+  /\ (forall l, l <> t_label t -> s_meta (rn_st rn') l = s_meta (rn_st rn) l /\ s_dyn (rn_st rn') l = s_dyn (rn_st rn) l).
 Proof.
   unfold run_action. destruct (gather (read r (rn_st rn)) (all_paths r t)) as [ins|].
   - destruct (act (t_kind t) (outputs t) (tmp_ins ins)) as [news|] eqn:Ha; cbn [rn_st].
     + apply act_names in Ha. split.
       * intros rel Hn. rewrite move_fold_outs by (rewrite Ha; exact Hn). reflexivity.
-      * intros l Hl. rewrite move_fold_meta. apply set_meta_other. exact Hl.
-    + split; [intros rel Hn; apply remove_outputs_outs; exact Hn|intros l _; rewrite remove_outputs_meta; reflexivity].
+      * intros l Hl. rewrite move_fold_meta, move_fold_dyn. split; [apply set_meta_other|apply set_meta_dyn_other]; exact Hl.
+    + split; [intros rel Hn; apply remove_outputs_outs; exact Hn|intros l _; rewrite remove_outputs_meta; unfold remove_outputs; rewrite remove_fold_dyn; split; reflexivity].
   - unfold fail_run. cbn [rn_st].
-    split; [intros rel Hn; apply remove_outputs_outs; exact Hn|intros l _; rewrite remove_outputs_meta; reflexivity].
+    split; [intros rel Hn; apply remove_outputs_outs; exact Hn|intros l _; rewrite remove_outputs_meta; unfold remove_outputs; rewrite remove_fold_dyn; split; reflexivity].
 Qed.
 
 Lemma build_rule_frame r rn t :
   let rn' := build_rule false r rn t in
   (forall rel, ~ In rel (out_rels t) -> s_outs (rn_st rn') rel = s_outs (rn_st rn) rel)
-  /\ (forall l, l <> t_label t -> s_meta (rn_st rn') l = s_meta (rn_st rn) l).
+  /\ (forall l, l <> t_label t -> s_meta (rn_st rn') l = s_meta (rn_st rn) l /\ s_dyn (rn_st rn') l = s_dyn (rn_st rn) l).
 Proof.
-  unfold build_rule. destruct (negb (needs_build r (rn_st rn) t)); [split; reflexivity|].
+  unfold build_rule. destruct (negb (needs_build r (rn_st rn) t)); [split; [reflexivity|intros l _; split; reflexivity]|].
   destruct (source_key r (rn_st rn) t) as [sk|].
   - apply run_action_frame.
   - unfold fail_run. cbn [rn_st].
-    split; [intros rel Hn; apply remove_outputs_outs; exact Hn|intros l _; rewrite remove_outputs_meta; reflexivity].
+    split; [intros rel Hn; apply remove_outputs_outs; exact Hn|intros l _; rewrite remove_outputs_meta; unfold remove_outputs; rewrite remove_fold_dyn; split; reflexivity].
 Qed.
 
-Lemma build_one_frame r rn t :
+(* a step that does not go through stale_flow writes only what its target claims *)
+Definition quiet_step (r : repo) (rn : run) (t : target) : Prop :=
+  blocked r rn t = false -> stale_flow r (rn_st rn) t = false.
+
+Lemma build_one_frame r rn t : quiet_step r rn t ->
   let rn' := build_one false r rn t in
-  (forall rel, ~ In rel (out_rels t) -> s_outs (rn_st rn') rel = s_outs (rn_st rn) rel)
-  /\ (forall l, l <> t_label t -> s_meta (rn_st rn') l = s_meta (rn_st rn) l).
+  (forall rel, ~ In rel (claimed r t) -> s_outs (rn_st rn') rel = s_outs (rn_st rn) rel)
+  /\ (forall l, l <> t_label t -> s_meta (rn_st rn') l = s_meta (rn_st rn) l /\ s_dyn (rn_st rn') l = s_dyn (rn_st rn) l).
 Proof.
-  unfold build_one. destruct (blocked r rn t); [split; reflexivity|].
+  intros Hq. unfold build_one. unfold quiet_step in Hq.
+  destruct (blocked r rn t); [split; [reflexivity|intros l _; split; reflexivity]|].
+  specialize (Hq eq_refl).
   destruct (is_filegroup t).
-  - destruct (build_filegroup_frame r t rn) as (Ho & Hm & _). split; [exact Ho|]. intros l _. rewrite Hm. reflexivity.
-  - apply build_rule_frame.
+  - destruct (build_filegroup_frame r t rn) as (Ho & Hm & _). split.
+    + intros rel Hn. apply Ho. intros Hi. apply Hn. apply out_rels_claimed. exact Hi.
+    + intros l _. rewrite Hm, build_filegroup_dyn. split; reflexivity.
+  - destruct (could_modify t) eqn:Ecm.
+    + apply build_rule_od_frame; assumption.
+    + destruct (build_rule_frame r rn t) as [Ho Hm]. split; [|exact Hm].
+      intros rel Hn. apply Ho. intros Hi. apply Hn. apply out_rels_claimed. exact Hi.
 Qed.
 
 (* the log and the failed list only grow, and only by the target's own label *)
@@ -238,9 +388,17 @@ Proof.
   unfold build_one. destruct (blocked r rn t); [left; reflexivity|].
   destruct (is_filegroup t).
   - left. apply build_filegroup_frame.
-  - unfold build_rule. destruct (negb (needs_build r (rn_st rn) t)); [left; reflexivity|].
+  - destruct (could_modify t).
+    { assert (Hre : forall outs0, rn_log (rebuild_od r rn t outs0) = rn_log rn \/ rn_log (rebuild_od r rn t outs0) = t_label t :: rn_log rn).
+      { intros outs0. unfold rebuild_od. destruct (source_key r (rn_st rn) t); [|left; reflexivity].
+        unfold run_od. destruct (gather _ _); [|left; reflexivity].
+        destruct (od_cmd _ _) as [[found news]|]; [|right; reflexivity].
+        destruct (collect _ _); right; reflexivity. }
+      unfold build_rule_od. destruct (needs_build r (rn_st rn) t); [apply Hre|].
+      destruct (needs_build_post _ _ _ _); [apply Hre|left; reflexivity]. }
+    unfold build_rule. destruct (negb (needs_build r (rn_st rn) t)); [left; reflexivity|].
     destruct (source_key r (rn_st rn) t) as [sk|]; [|left; reflexivity].
-    destruct (if c then s_cache (rn_st rn) (t_label t) (t_defkey t, sk) else None); [left; reflexivity|].
+    destruct (if c then s_cache (rn_st rn) (t_label t) ((t_defkey t, []), sk) else None); [left; reflexivity|].
     unfold run_action. destruct (gather _ _); [|left; reflexivity].
     destruct (act _ _ _); right; reflexivity.
 Qed.
@@ -251,9 +409,17 @@ Proof.
   unfold build_one. destruct (blocked r rn t); [exists 1; reflexivity|].
   destruct (is_filegroup t).
   - destruct (build_filegroup_frame r t rn) as (_ & _ & _ & [Hf|[n Hf]]); [exists 0|exists (S n)]; exact Hf.
-  - unfold build_rule. destruct (negb (needs_build r (rn_st rn) t)); [exists 0; reflexivity|].
+  - destruct (could_modify t).
+    { assert (Hre : forall outs0, exists n, rn_failed (rebuild_od r rn t outs0) = repeat (t_label t) n ++ rn_failed rn).
+      { intros outs0. unfold rebuild_od. destruct (source_key r (rn_st rn) t); [|exists 1; reflexivity].
+        unfold run_od. destruct (gather _ _); [|exists 1; reflexivity].
+        destruct (od_cmd _ _) as [[found news]|]; [|exists 1; reflexivity].
+        destruct (collect _ _); [exists 0|exists 1]; reflexivity. }
+      unfold build_rule_od. destruct (needs_build r (rn_st rn) t); [apply Hre|].
+      destruct (needs_build_post _ _ _ _); [apply Hre|exists 0; reflexivity]. }
+    unfold build_rule. destruct (negb (needs_build r (rn_st rn) t)); [exists 0; reflexivity|].
     destruct (source_key r (rn_st rn) t) as [sk|]; [|exists 1; reflexivity].
-    destruct (if c then s_cache (rn_st rn) (t_label t) (t_defkey t, sk) else None); [exists 0; reflexivity|].
+    destruct (if c then s_cache (rn_st rn) (t_label t) ((t_defkey t, []), sk) else None); [exists 0; reflexivity|].
     unfold run_action. destruct (gather _ _); [|exists 1; reflexivity].
     destruct (act _ _ _); [exists 0|exists 1]; reflexivity.
 Qed.
